@@ -204,8 +204,18 @@ def _(p):
     (A0, B0), (A1, B1) = p["cats"]
     y = p["y"]
 
-    def build(sp, rows):
+    def build(sp, rows, cat_mode=None):
+        import pandas
+
         d = mc.full_frame([r[0] for r in rows], [r[1] for r in rows], a_rows=[r[2] for r in rows], b_rows=[r[3] for r in rows])
+        cat_mode = cat_mode or p.get("cat_mode") or "full"
+        ar, br = [r[2] for r in rows], [r[3] for r in rows]
+        if cat_mode == "inferred":
+            d["A"], d["B"] = pandas.Categorical(ar), pandas.Categorical(br)
+        elif cat_mode == "reversed":
+            d["A"], d["B"] = pandas.Categorical(ar, categories=mc.A_LEVELS[::-1]), pandas.Categorical(br, categories=mc.B_LEVELS[::-1])
+        elif cat_mode == "object":
+            d["A"], d["B"] = pandas.Series(ar, dtype=object), pandas.Series(br, dtype=object)
         m = sp.get_model_matrix(d)
         if list(m.model_spec.column_names) != labels:
             raise AssertionError(f"names-changed: {p['formula']!r}: follow-up columns {list(m.model_spec.column_names)} instead of {labels}")
@@ -215,6 +225,8 @@ def _(p):
     try:
         two, sw, one, dup = build(spec, [r0, r1]), build(spec, [r1, r0]), build(spec, [r0]), build(spec, [r0, r0])
         twop = build(pickle.loads(pickle.dumps(spec)), [r0, r1])
+        alts = {m: build(spec, [r0, r1], m) for m in ("inferred", "reversed", "object")} if not p.get("lost") else {}
+        full = build(spec, [r0, r1], "full")
     except ValueError as e:
         if "extend beyond" in str(e):
             return None
@@ -230,6 +242,9 @@ def _(p):
         return f"duplicate-changes-rows: {p['formula']!r} at {y}"
     if not eq(twop, two):
         return f"pickle-changes-behaviour: {p['formula']!r} at {y}"
+    for m, alt in alts.items():
+        if not eq(alt, full):
+            return f"declared-categories-change-encoding: {p['formula']!r}: a follow-up frame declaring its categories as {m!r} is encoded as {alt.tolist()}, the recorded levels give {full.tolist()}"
     if p.get("lost"):
         for j, lab in enumerate(labels):
             if any(tok in lab for tok in ("[T.y]", "[T.z]", "[y]", "[z]", "[T.v]", "[v]")) and "contr." not in lab:
